@@ -334,6 +334,10 @@ func init() {
 				raTerminators(m.Prog, i)
 				cs = append(cs, &raCase{Prog: m.Prog})
 			}
+			// entries whose first character (behind blank / tab indentation) is another kind of white space: it belongs to the entry
+			for _, m := range []string{"  \u00a0admin\n\troot\n", "\fform\nfeed\n", "\u3000wide\nnarrow\n", " \t\u2003em\nen\n", "x\u00a0\ny\n", "##!> assemble\n  \u00a0in\n  out\n##!<\nlast\n"} {
+				cs = append(cs, &raCase{Prog: &ra.Program{Main: m, Lane: "pinned-leading-blanks", Files: ra.Files{Include: map[string]string{}, Exclude: map[string]string{}}}})
+			}
 			return cs
 		},
 		Check:         c01Check,
